@@ -21,7 +21,9 @@ LEVEL = 'exploration'
 TECHNIQUE = ('grammar-based generation (Hypothesis recursive strategy + '
              'exhaustive depth<=2 enumeration) with a differential oracle: '
              'compiled formula vs tree-walk of the generated AST using '
-             "pycel's own operator/function runtime; literal round trip")
+             "pycel's own operator/function runtime; literal round trip; "
+             'the same property driven by atheris/libFuzzer through '
+             "Hypothesis' fuzz_one_input with coverage of pycel.excelformula")
 LEVEL_TEXT = ('Exploration: every tree of depth <=2 over 4 leaves and all 14 '
               'operators is enumerated (thorough; strided in quick), trees to '
               '12 leaves with calls/parentheses/all literal kinds are sampled '
@@ -300,11 +302,92 @@ def shards(tier, seed):
                     n=3000 if tier == 'quick' else 60000))
     out.append(dict(kind='workbook', seed=seed * 1000 + 600,
                     n=300 if tier == 'quick' else 4000))
+    # coverage-guided (atheris / libFuzzer) over the same structured property
+    for k in range(1 if tier == 'quick' else 4):
+        out.append(dict(kind='atheris', seed=seed * 1000 + 700 + k,
+                        runs=4000 if tier == 'quick' else 250000))
     return out
+
+
+def run_atheris(shard, rec):
+    """libFuzzer drives Hypothesis' byte-level entry point of the tree
+    property (vlib/fuzz_c02.py) in a sub-process; coverage feedback comes from
+    pycel.excelformula / pycel.excelutil.  atheris is installed from the
+    offline wheelhouse into /verif/.deps on first use."""
+    import json
+    import os
+    import random
+    import subprocess
+    import sys
+    from vlib.xl import TempDir
+    root = os.path.dirname(os.path.dirname(os.path.abspath(__file__)))
+    deps = os.path.join(root, '.deps')
+    env = dict(os.environ)
+    env['PYTHONPATH'] = env.get('PYTHONPATH', '') + os.pathsep + deps
+    probe = [sys.executable, '-c', 'import atheris']
+    if subprocess.run(probe, env=env, capture_output=True).returncode:
+        subprocess.run([sys.executable, '-m', 'pip', 'install', '-q',
+                        '--no-index', '--find-links',
+                        '/opt/veriftools/wheels', '--target', deps,
+                        'atheris'], capture_output=True)
+        if subprocess.run(probe, env=env, capture_output=True).returncode:
+            rec.note('atheris could not be installed from the wheelhouse; '
+                     'coverage-guided shard skipped')
+            rec.label('atheris:unavailable')
+            return
+    with TempDir() as tmp:
+        corpus = os.path.join(tmp, 'corpus')
+        os.mkdir(corpus)
+        # seed inputs: raw entropy long enough for one generated example
+        # (an empty corpus never grows: without an example there is no
+        # coverage to reward a longer input)
+        prng = random.Random(shard['seed'])    # corpus bytes, not test data
+        for i in range(8):
+            with open(os.path.join(corpus, f's{i}'), 'wb') as f:
+                f.write(bytes(prng.getrandbits(8)
+                              for _ in range(512 * (1 + i % 4))))
+        out = os.path.join(tmp, 'out.json')
+        cmd = [sys.executable, '-m', 'vlib.fuzz_c02', out,
+               f'-runs={shard["runs"]}', f'-seed={shard["seed"]}',
+               '-max_len=4096', '-len_control=0', '-timeout=120',
+               '-print_final_stats=1', corpus]
+        try:
+            proc = subprocess.run(cmd, env=env, capture_output=True,
+                                  text=True, cwd=root,
+                                  timeout=shard['runs'] / 40 + 300)
+            code, log = proc.returncode, proc.stderr + proc.stdout
+        except subprocess.TimeoutExpired:
+            rec.note('atheris shard hit its wall-clock budget: inconclusive')
+            rec.label('atheris:budget-exhausted')
+            return
+        data = {}
+        if os.path.exists(out):
+            with open(out) as f:
+                data = json.load(f)
+        rec.bulk(data.get('evaluations', 0), 0, 'atheris:evaluations')
+        rec.label('atheris:nontrivial-not-deduplicated',
+                  data.get('nontrivial', 0))
+        for line in log.splitlines():
+            if line.startswith('#') and 'DONE' in line:
+                rec.note(f'atheris seed {shard["seed"]}: {line.strip()}')
+        if data.get('klass'):
+            # re-run the saved case in this process: the recorder decides
+            case = data['case']
+            res = check_tree(rec, FastEnv(), case['tree'],
+                             tuple(case['style']), case['env'])
+            if res is None:
+                rec.fail(data['klass'] + ':not-reproducible', case,
+                         data['msg'])
+        elif code != 0:
+            rec.note(f'atheris exited {code} without a property failure: '
+                     f'{log[-300:]!r}')
+            rec.label('atheris:fuzzer-error')
 
 
 def run_shard(shard, rec):
     kind = shard['kind']
+    if kind == 'atheris':
+        return run_atheris(shard, rec)
     fenv = FastEnv()
     if kind == 'small':
         n = 0
